@@ -1084,3 +1084,66 @@ Definition keys_of_run (fa : FreqAlg) (c : rcfg) (thr : F fa) (g : graph) :=
   | inl (ns, l) => Some (map (fun sh => (sh_class sh, sh_n sh, map (skey (scfg_of c ns)) (sh_stmts sh))) l)
   | inr _ => None
   end.
+
+(** ** complements to C01 *)
+
+(** the reported ratio of a plain line is at most one (binary64 run) *)
+Theorem e2e_line_ratio_le_one c thr g ns shapes :
+  run_shapes BAlg c thr g = inl (ns, shapes) ->
+  forall sh st, In sh shapes -> In st (sh_stmts sh) ->
+    s_choice st = false -> s_type st <> c_NONLITERAL_ELEM_TYPE -> sh_n sh < 2 ^ 53 ->
+    (s_nocc st <= sh_n sh) /\ fle BAlg (ratio BAlg (s_nocc st) (sh_n sh)) (fone BAlg) = true.
+Proof.
+  intros H sh st Hsh Hst Hch Hty Hlt. destruct (e2e_line_exact BAlg c thr g ns shapes H) as (I & _ & HL).
+  destruct (HL sh st Hsh Hst Hch Hty) as (ck & _ & Hp & Hle & _). split; [exact Hle|].
+  apply (ratio_le_one _ _ _ BAlg_laws); [split; lia | exact Hle].
+Qed.
+
+(** the header count as a number of instances, for the uncapped tracker on a
+    graph in which no typing statement occurs twice (two occurrences of
+    [i tau cls] make the tracker list [cls] twice for [i]: QUIRK Q7) *)
+Definition typing_pair (t : triple) : str * str := (nid (ts t), objid t).
+
+Lemma about_filter tau m i g :
+  filter (about tau m i) g = filter (fun t => str_eqb (nid (ts t)) i) (filter (relevant tau m) g).
+Proof.
+  induction g as [|t g IH]; [reflexivity|]. cbn [filter]. unfold about at 1.
+  destruct (relevant tau m t); cbn [andb filter]; [|exact IH].
+  destruct (str_eqb (nid (ts t)) i); rewrite IH; reflexivity.
+Qed.
+
+Lemma nodup_pairs_snd {A} (f h : A -> str) i l :
+  NoDup (map (fun t => (f t, h t)) l) -> NoDup (map h (filter (fun t => str_eqb (f t) i) l)).
+Proof.
+  induction l as [|t l IH]; intros Hn; [constructor|]. cbn [map] in Hn. inversion Hn as [|? ? Hx Hn']; subst.
+  cbn [filter]. destruct (str_eqb (f t) i) eqn:E; [|apply IH; exact Hn'].
+  cbn [map]. constructor; [|apply IH; exact Hn'].
+  intros Hin. apply in_map_iff in Hin. destruct Hin as [t' [Eh Ht']]. apply filter_In in Ht'. destruct Ht' as [Ht' E'].
+  apply Hx. apply in_map_iff. exists t'. split; [|exact Ht'].
+  apply str_eqb_eq in E, E'. rewrite Eh. congruence.
+Qed.
+
+Theorem track_classes_nodup tau m cap g I :
+  (cap <= 0)%Z -> NoDup (map typing_pair (filter (relevant tau m) g)) ->
+  track tau m cap g = inl I -> forall i cs, In (i, cs) I -> NoDup cs.
+Proof.
+  intros Hcap Hg H i cs Hin.
+  pose proof (proj1 (track_insts_ok tau m cap g I H)) as N1.
+  unfold track in H. apply Z.leb_le in Hcap. rewrite Hcap in H.
+  destruct (track_plain_char tau m g [] I H) as [A _].
+  assert (E : cs = classes_of I i) by (unfold classes_of; rewrite (In_dget_NoDup I i cs N1 Hin); reflexivity).
+  rewrite E, A. cbn [classes_of dget app]. rewrite about_filter.
+  apply (nodup_pairs_snd (fun t => nid (ts t)) objid i). exact Hg.
+Qed.
+
+Theorem e2e_header_instances fa c thr g ns shapes :
+  (r_cap c <= 0)%Z -> NoDup (map typing_pair (filter (relevant (r_tau c) (mode_of c)) g)) ->
+  run_shapes fa c thr g = inl (ns, shapes) ->
+  exists I, track (r_tau c) (mode_of c) (r_cap c) g = inl I /\
+    forall sh, In sh shapes ->
+      sh_n sh = N.of_nat (List.length (filter (fun ie : str * list str => mem_str (sh_class sh) (snd ie)) I)).
+Proof.
+  intros Hcap Hg H. destruct (e2e_header fa c thr g ns shapes H) as (I & HT & HS & _).
+  exists I. split; [exact HT|]. intros sh Hsh. destruct (HS sh Hsh) as [_ ->].
+  apply class_count_as_length. apply (track_classes_nodup _ _ _ _ _ Hcap Hg HT).
+Qed.
